@@ -302,6 +302,9 @@ func (ex *Exec) applyContract(st *State, in ssa.Instruction, ord int, name strin
 			if _, bound := eenv.vars[g.Name]; !bound {
 				w := Sc{ex.ctx.Fresh("wit_"+sanitize(short)+"_"+g.Name, ghostSortOf(g.Init))}
 				eenv.vars[g.Name] = TV{w, nil}
+				if prev, ok := st.ghost[short+"_"+g.Name]; ok {
+					st.setGhost(short+"_prev_"+g.Name, prev) // the call before the most recent one
+				}
 				st.setGhost(short+"_"+g.Name, w)
 			}
 		}
@@ -310,6 +313,9 @@ func (ex *Exec) applyContract(st *State, in ssa.Instruction, ord int, name strin
 		if _, bound := eenv.vars[wt.Name]; !bound {
 			w := Sc{ex.ctx.Fresh("wit_"+sanitize(short)+"_"+wt.Name, kindSort(wt.Kind))}
 			eenv.vars[wt.Name] = TV{w, nil}
+			if prev, ok := st.ghost[short+"_"+wt.Name]; ok {
+				st.setGhost(short+"_prev_"+wt.Name, prev)
+			}
 			st.setGhost(short+"_"+wt.Name, w)
 		}
 	}
